@@ -1,15 +1,11 @@
 //! svf — property-based verification harness for facebook/starlark-rust (see /verif/DESIGN.md).
 
-mod astx;
-mod corpus;
-mod engine;
-mod textgen;
-mod sl;
-mod oracle;
-mod prog;
-mod props;
 
-use engine::Tier;
+use svf::engine;
+use svf::engine::Tier;
+use svf::props;
+use svf::sl;
+use svf::textgen;
 
 fn arg_value(args: &[String], name: &str) -> Option<String> {
     args.iter().position(|a| a == name).and_then(|i| args.get(i + 1).cloned())
